@@ -3,7 +3,7 @@ from .. import e1, flows, oracles
 from ..report import Result
 
 NEEDS = ("dev",)
-POST_KINDS = ["newAccount", "newOrder", "authz", "chall", "authzPoll", "orderPoll1", "finalize", "orderPoll2", "cert"]
+POST_KINDS = ["newAccount", "newOrder", "authz", "chall", "authzPoll", "orderPoll1", "finalize", "orderPoll2", "cert"]  # + acctUpdate, keyChange below
 
 
 def judge(req, obs):
@@ -15,7 +15,9 @@ def judge(req, obs):
         reqs = [e for e in e1.reqs_of(obs.get("events", [])) if e["kind"] == kind and e["method"] == "POST"]
         errs = [e for e in reqs if e.get("answer", "").startswith("err:")]
         atts = e1.split_attempts(obs.get("events", []))
-        success = bool(atts and atts[0].end is not None and atts[0].end.get("success"))
+        # the attempt in which the scripted request position occurred (two-phase flows: the second one)
+        mine = [a for a in atts if any(e.get("kind") == kind for e in e1.reqs_of(a.events))] or atts[:1]
+        success = bool(mine and mine[-1].end is not None and mine[-1].end.get("success"))
         if t in e1.RECOVERABLE:
             want_err = min(r, 10)
             want_success = r <= 9
@@ -67,6 +69,17 @@ def run(ctx):
                 q = dict(base)
                 q["script"] = [{"kind": kind, "nth_from": 0, "nth_to": r - 1, "answer": e1.err(t)}]
                 q["meta"] = dict(base["meta"], run=[kind, t, r])
+                reqs.append(q)
+    # account update and key roll-over positions (two-phase flows: issue, change the configuration, renew)
+    from . import c04
+    for kind, flow, kt2 in [("acctUpdate", "contacts", None), ("keyChange", "rollover", "ecdsa-p384")]:
+        for t in (types if not ctx.quick else ["badNonce", "serverInternal", "malformed", "unauthorized", "notype", "rateLimited"]):
+            for r in runs:
+                if t not in e1.RECOVERABLE and r > 1:
+                    continue
+                q = c04.flow_request("ecdsa-p256", flow, kt2)
+                q["script"] = [{"kind": kind, "nth_from": 0, "nth_to": r - 1, "answer": e1.err(t)}]
+                q["meta"] = dict(q["meta"], run=[kind, t, r], pair="none", kp_reuse=False)
                 reqs.append(q)
     # status codes
     for kind in ["newOrder", "finalize", "authzPoll"]:
